@@ -297,7 +297,8 @@ fn run_script(script: &Script, fault: Fault) -> Outcome {
     // quiescence: two more seconds, then look at the put receivers
     w.run_for(3 * SEC);
     let (msgs, fault_hit, contacted_n) = {
-        let g = counter_reader().borrow();
+        let rc = counter_reader();
+        let g = rc.borrow();
         let c = g.as_ref().expect("counter").lock().unwrap_or_else(|e| e.into_inner());
         (c.0, c.1, c.3.len() as u64)
     };
@@ -387,7 +388,7 @@ pub fn run(a: &Args) -> Report {
         let c = &v["case"];
         let calls: Vec<(Call, bool, u64)> = c["calls"]
             .as_array()
-            .map(|l| l.iter().filter_map(|e| Some((*CALLS.iter().find(|k| format!("{k:?}") == e[0].as_str()?)?, e[1].as_bool()?, e[2].as_u64()?))).collect())
+            .map(|l| l.iter().filter_map(|e| { let name = e[0].as_str()?; Some((*CALLS.iter().find(|k| format!("{k:?}") == name)?, e[1].as_bool()?, e[2].as_u64()?)) }).collect())
             .unwrap_or_default();
         let script = Script { seed: c["seed"].as_str().and_then(|s| s.parse().ok()).unwrap_or(1), servers: c["servers"].as_u64().unwrap_or(4) as usize, x_server: c["x_server"].as_bool().unwrap_or(false), calls };
         let fault = parse_fault(c["fault"].as_str().unwrap_or("None"));
